@@ -39,13 +39,18 @@ RULE = ('cases (program, history): typed random stream DAGs (1-3 queue/file sour
         'plus a systematic family: every op on a source, every ordered op pair, every diamond combiner, each under '
         '3 fixed histories; plus harness-driven stepping orders (the harness calls _step on the registered nodes in a '
         'prescribed sequence instead of firing the callback; correspondence only) and programs with a transform function '
-        'returning None (children take the early return of TransformedDStream._step; correspondence only); non-trivial = at least one tick delivers a non-empty batch to a node below a source; '
+        'returning None (children take the early return of TransformedDStream._step; correspondence only); graph '
+        'construction interleaved with ticks (2-3 registration phases: sources, branches, joins with existing branches and '
+        'actions registered after start(), judged from the next interval on); queues with None entries (alone, first, '
+        'last, consecutive) x every default, oneAtATime=True; non-trivial = at least one tick delivers a non-empty batch to a node below a source; '
         'distinct by canonical JSON of the case')
 ASSUMPTIONS = [
     'user functions are pure, total on the element type they are applied to and (for reduce/reduceByKey) commutative '
     'and associative; keys are ints; generated programs are well typed',
     'observed RDD contents are compared as multisets (canonical deep sort; the [self, other] lists of cogroup stay positional)',
     'tick times are integral floats, non-decreasing; a repeated timestamp is not a new interval',
+    'a None entry is only queued with oneAtATime=True (with oneAtATime=False the comprehension in QueueStream.get raises '
+    'TypeError on it, on the unchanged code as well)',
     'files are immutable once they appear and are never removed; file names contain no comma or wildcard',
     'WindowedDStream / StatefulDStream (C11), cache(), pprint(), saveAsTextFiles(), TCP sources are not modelled',
 ]
@@ -163,6 +168,7 @@ class _Run:
         self.events = []
         self.sink_nodes = {}
         self.dirs = {}
+        self.instrumented = 0
 
     def index_of(self, ssc, d):
         for i, x in enumerate(ssc._dstreams):
@@ -170,14 +176,15 @@ class _Run:
                 return i
         return -1
 
-    def build(self, sc, ssc, base):
-        handles = []
-        for h, call in enumerate(self.prog):
+    def build(self, sc, ssc, base, calls, handles):
+        """Make the given calls now (handles of earlier calls in `handles`, extended in place)."""
+        for call in calls:
+            h = len(handles)
             op = call[0]
             s = handles[call[1]] if op not in (QUEUE, FILE) else None
             if op == QUEUE:
                 _, batches, one, default = call
-                r = ssc.queueStream([list(b) for b in batches], oneAtATime=one,
+                r = ssc.queueStream([None if b is None else list(b) for b in batches], oneAtATime=one,
                                     default=None if default is None else list(default))
             elif op == FILE:
                 _, done0, pre = call
@@ -241,7 +248,10 @@ class _Run:
         return action
 
     def instrument(self, ssc):
+        first, self.instrumented = self.instrumented, len(ssc._dstreams)
         for i, d in enumerate(ssc._dstreams):
+            if i < first:
+                continue
             if type(d).__name__ == 'DStream':
                 self._wrap_get(d._stream, i)
             elif hasattr(d, '_func') and i not in self.sink_nodes:
@@ -283,15 +293,24 @@ class _Run:
             sc = pysparkling.Context()
             with VirtualClock() as vc:
                 ssc = StreamingContext(sc, 1.0)
-                handles = self.build(sc, ssc, base)
-                hnodes = [self.index_of(ssc, r) for r in handles]
-                self.instrument(ssc)
-                struct = self.structure(ssc)
-                ssc.start()
-                ticks = []
-                for entry in self.hist:
+                hist = list(self.hist)
+                if not any(len(e) == 1 for e in hist):
+                    hist.insert(0, (len(self.prog),))
+                handles, pos, started, ticks = [], 0, False, []
+                for entry in hist:
+                    if len(entry) == 1:
+                        # graph construction, possibly after start(): the next n calls of the program
+                        self.build(sc, ssc, base, self.prog[pos:pos + entry[0]], handles)
+                        pos += entry[0]
+                        self.instrument(ssc)
+                        if not started:
+                            ssc.start()
+                            started = True
+                        continue
                     t, env = entry[0], entry[1]
                     for h, ls in env:
+                        if h not in self.dirs:
+                            continue
                         for name, lines in ls:
                             if not os.path.exists(os.path.join(self.dirs[h], name)):
                                 _write(self.dirs[h], name, lines)
@@ -311,6 +330,8 @@ class _Run:
                         ct = d._current_time
                         states.append((int(ct) if ct == int(ct) else ct, o))
                     ticks.append((sorted(self.events, key=_key), states))
+                struct = self.structure(ssc)
+                hnodes = [self.index_of(ssc, r) for r in handles]
             return (struct, hnodes, ticks)
         finally:
             shutil.rmtree(base, ignore_errors=True)
@@ -419,24 +440,34 @@ def ref_op(call, ins, t):
 
 def oracle(case, result):
     prog, hist = case
-    if any(len(e) != 2 for e in hist):
+    if any(len(e) == 3 for e in hist):
         return None   # harness-driven stepping order: model tie only, the property is about the callback
     if any(c[0] == TRANSFORM and c[2] == 6 for c in prog):
         return None   # a transform function returning None: outside the property, model tie only
     if isinstance(result, Err):
         return (f'run:{result.name}', 'building or stepping the streams raised')
     struct, hn, ticks = result
-    n = len(struct)
-    sources = [i for i, (k, _) in enumerate(struct) if k == 0]
-    src_handle = {hn[h]: h for h, c in enumerate(prog) if c[0] in (QUEUE, FILE)}
     qpos = {h: 0 for h, c in enumerate(prog) if c[0] == QUEUE}
     seen = {h: set(c[1]) for h, c in enumerate(prog) if c[0] == FILE}
     last_t = 0
-    for k, ((t, env), (events, states)) in enumerate(zip(hist, ticks)):
+    entries = list(hist)
+    if not any(len(e) == 1 for e in entries):
+        entries.insert(0, (len(prog),))
+    reg = 0          # calls made so far: only these streams/actions exist in the interval being judged
+    k = -1
+    for entry in entries:
+        if len(entry) == 1:
+            reg = min(len(prog), reg + entry[0])
+            continue
+        k += 1
+        (t, env), (events, states) = entry, ticks[k]
         if t <= last_t:
             continue   # not a new interval
         last_t = t
         where = f'tick {k} (t={t})'
+        if reg > len(hn) or any(hn[h] >= len(states) or hn[h] < 0 for h in range(reg)):
+            return ('register:missing-node', f'{where}: a stream returned by a call is not among the registered streams')
+        n = len(states)
         # every registered stream advanced to this interval
         for i, (ct, _) in enumerate(states):
             if ct != t:
@@ -451,21 +482,21 @@ def oracle(case, result):
             if kind != 0 and pops != 0:
                 return ('source:get-count', f'{where}: node {i} (not a source) called get() {pops} times')
             if kind in (1, 2) and fires != 1:
-                is_action = i in hn and prog[hn.index(i)][0] == FOREACH
+                is_action = i in hn[:reg] and prog[hn.index(i)][0] == FOREACH
                 what = 'foreachRDD action' if is_action else 'function'
                 return (f'fire:{"action" if is_action else "function"}-count',
                         f'{where}: {what} of node {i} called {fires} times')
         # contents per API-level stream
         obs = {}
-        for h, i in enumerate(hn):
-            o = states[i][1]
+        for h in range(reg):
+            o = states[hn[h]][1]
             obs[h] = None if o is None else o[2]
         # deliv[h] is True when the stream certainly holds a DELIVERED batch in this interval (possibly
         # without elements), as opposed to "nothing was delivered" (source exhausted without default, no
         # new file, slice out of range).  Derived from the history alone.  count() of a delivered batch
         # must be [n] also for n = 0; only for an interval without any batch the reading accepts [].
         deliv = {}
-        for h, call in enumerate(prog):
+        for h, call in enumerate(prog[:reg]):
             op = call[0]
             if op == QUEUE:
                 _, batches, one, default = call
@@ -473,12 +504,14 @@ def oracle(case, result):
                 if p >= len(batches):
                     want = list(default) if default is not None else []
                 elif one:
-                    want = list(batches[p])
+                    # a queued None is an interval without data; the default only applies to an exhausted queue
+                    want = list(batches[p]) if batches[p] is not None else []
                     qpos[h] = p + 1
                 else:
                     want = [x for b in batches[p:] for x in b]
                     qpos[h] = len(batches)
-                deliv[h] = p < len(batches) or default is not None
+                deliv[h] = (p < len(batches) and not (one and batches[p] is None)) or \
+                    (p >= len(batches) and default is not None)
                 if obs[h] is None or not _multiset_eq(obs[h], want):
                     return ('queue:delivery', f'{where}: queue stream (call {h}) delivered {obs[h]!r}, expected {want!r}')
                 continue
@@ -592,21 +625,58 @@ def _mk(spec, s):
     return (spec[0], s) + tuple(spec[1:])
 
 
+def _queue_batches(rng, ty, one):
+    nb = rng.choice([0, 1, 2, 3, 4, 6, 8])
+    bs = [_batch(rng, ty) for _ in range(nb)]
+    if one and rng.random() < 0.35:
+        # None entries ("nothing arrived in this interval"): alone, first, last, consecutive, scattered
+        mode = rng.randrange(5)
+        if mode == 0:
+            bs = [None]
+        elif mode == 1:
+            bs = [None] + bs
+        elif mode == 2:
+            bs = bs + [None]
+        elif mode == 3:
+            k = rng.randint(0, len(bs))
+            bs = bs[:k] + [None, None] + bs[k:]
+        else:
+            bs = [None if rng.random() < 0.3 else b for b in bs] or [None]
+    return bs
+
+
+def _add_source(rng, prog, types, depth, with_files, first):
+    if with_files and (first or rng.random() < 0.3):
+        prog.append('FILE')
+        types.append(S)
+    else:
+        ty = rng.choice([I, I, KI])
+        one = rng.random() < 0.75
+        default = None if rng.random() < 0.55 else ([] if rng.random() < 0.25 else _batch(rng, ty))
+        prog.append((QUEUE, _queue_batches(rng, ty, one), one, default))
+        types.append(ty)
+    depth.append(0)
+
+
+def _add_actions(rng, prog, types, depth, k):
+    live = [h for h in range(len(prog)) if types[h] is not None]
+    for s in rng.sample(live, min(len(live), k)):
+        prog.append((FOREACH, s))
+        types.append(None)
+        depth.append(9)
+
+
 def gen_program(rng, max_calls=12, with_files=False, with_none=False):
     prog, types, depth = [], [], []
     nsrc = rng.choice([1, 1, 2, 2, 3])
     for j in range(nsrc):
-        if with_files and (j == 0 or rng.random() < 0.3):
-            prog.append('FILE')
-            types.append(S)
-        else:
-            ty = rng.choice([I, I, KI])
-            nb = rng.choice([0, 1, 2, 3, 4, 6, 8])
-            default = None if rng.random() < 0.55 else ([] if rng.random() < 0.25 else _batch(rng, ty))
-            prog.append((QUEUE, [_batch(rng, ty) for _ in range(nb)], rng.random() < 0.75, default))
-            types.append(ty)
-        depth.append(0)
-    ncalls = rng.randint(1, max_calls)
+        _add_source(rng, prog, types, depth, with_files, j == 0)
+    _add_calls(rng, prog, types, depth, rng.randint(1, max_calls), with_none)
+    _add_actions(rng, prog, types, depth, rng.choice([1, 1, 2, 3]))
+    return prog, types
+
+
+def _add_calls(rng, prog, types, depth, ncalls, with_none=False):
     for _ in range(ncalls):
         live = [h for h in range(len(prog)) if types[h] is not None and depth[h] < 4]
         if not live:
@@ -646,13 +716,6 @@ def gen_program(rng, max_calls=12, with_files=False, with_none=False):
             prog.append(_mk(spec, s))
             types.append(rty)
             depth.append(depth[s] + 1)
-    # actions
-    live = [h for h in range(len(prog)) if types[h] is not None]
-    for s in rng.sample(live, min(len(live), rng.choice([1, 1, 2, 3]))):
-        prog.append((FOREACH, s))
-        types.append(None)
-        depth.append(9)
-    return prog, types
 
 
 def gen_times(rng, n):
@@ -709,6 +772,10 @@ SYS_HIST = [
     (True, True, [1, 2, 3, 4]),
     (False, True, [1, 2, 3]),
     (True, 'empty', [1, 2, 3, 4]),
+    # queues with None entries (first, consecutive, last) x every default; light: no ordered op pairs
+    (True, False, 'none'),
+    (True, True, 'none'),
+    (True, 'empty', 'none'),
 ]
 B_I = [[1, 2, 2], [], [4]]
 B_KI = [[(0, 1), (1, 2), (0, 3)], [], [(2, 4)]]
@@ -725,14 +792,33 @@ def systematic():
     cases = []
     for one, dflt, times in SYS_HIST:
         for ty, bs in ((I, B_I), (KI, B_KI)):
-            src = (QUEUE, bs, one, ([] if dflt == 'empty' else bs[0] if dflt else None))
+            light = times == 'none'
+            dv = [] if dflt == 'empty' else bs[0] if dflt else None
+            if light:
+                bs = [None, bs[0], None, None, bs[2], None]
+                times = [1, 2, 3, 4, 5, 6, 7, 8]
+            src = (QUEUE, bs, one, dv)
             hist = [(t, []) for t in times]
+            if not light and one and dflt is True:
+                # registration after start(): the source (+ an action) first, 0 or 1 ticks, then each op /
+                # each diamond with its actions, then two more ticks
+                for pre in (0, 1):
+                    h1 = [(2,)] + [(t, []) for t in times[:pre]]
+                    h2 = [(t, []) for t in times[pre:pre + 2]]
+                    for spec in SYS_UNARY[ty]:
+                        cases.append(([src, (FOREACH, 0), _mk(spec, 0), (FOREACH, 2)], h1 + [(2,)] + h2))
+                    for b in SYS_BIN:
+                        if b[0] == COGROUPED and ty != KI:
+                            continue
+                        br = (MAP, 0) if ty == KI else (MAP, 1)
+                        cases.append(([src, (FOREACH, 0), _mk(br, 0), (b[0], 0, 2) + tuple(b[1:]), (FOREACH, 3)],
+                                      h1 + [(1,)] + h2[:1] + [(2,)] + h2[1:]))
             # every op directly on the source, with an action on the source and on the result
             for spec in SYS_UNARY[ty]:
                 cases.append(([src, _mk(spec, 0), (FOREACH, 1), (FOREACH, 0)], hist))
                 # every ordered pair of ops
                 rty = _res_type(spec, ty)
-                for spec2 in SYS_UNARY.get(rty, []):
+                for spec2 in ([] if light else SYS_UNARY.get(rty, [])):
                     cases.append(([src, _mk(spec, 0), _mk(spec2, 1), (FOREACH, 2)], hist))
             # diamonds: two branches of the same source re-joined
             branches = [(MAP, 0), (FILTER, 4)] if ty == KI else [(MAP, 1), (FILTER, 2)]
@@ -758,6 +844,30 @@ def systematic():
     return cases
 
 
+def gen_late_case(rng):
+    """Graph construction interleaved with ticks: part of the DAG, start(), 0..3 ticks, then further
+    sources / branches (also joined with existing ones) / output actions, more ticks, possibly a third phase."""
+    prog, types, depth = [], [], []
+    hist, t = [], 0
+    for phase in range(rng.choice([2, 2, 3])):
+        before = len(prog)
+        if phase == 0:
+            for j in range(rng.choice([1, 1, 2])):
+                _add_source(rng, prog, types, depth, False, False)
+            _add_calls(rng, prog, types, depth, rng.randint(0, 5))
+            _add_actions(rng, prog, types, depth, rng.choice([0, 1, 1, 2]))
+        else:
+            if rng.random() < 0.25:
+                _add_source(rng, prog, types, depth, False, False)
+            _add_calls(rng, prog, types, depth, rng.randint(0, 5))
+            _add_actions(rng, prog, types, depth, rng.choice([1, 1, 2]))
+        hist.append((len(prog) - before,))
+        for _ in range(rng.randint(0 if phase == 0 else 1, 3)):
+            t += rng.choice([1, 1, 2])
+            hist.append((t, []))
+    return (prog, hist)
+
+
 def gen_order_case(rng):
     """Same programs, but the harness steps the registered nodes itself: sinks only, a random
     permutation, or a random sequence with repetitions and omissions."""
@@ -781,11 +891,13 @@ def gen_order_case(rng):
 def generate(rng, tier):
     cases = list(_corpus())
     cases += systematic()
-    n_rand, n_file = (700, 120) if tier == 'quick' else (9000, 1500)
+    n_rand, n_file = (600, 100) if tier == 'quick' else (8000, 1200)
     for _ in range(150 if tier == 'quick' else 1500):
         cases.append(gen_order_case(rng))
     for _ in range(100 if tier == 'quick' else 1000):
         cases.append(gen_case(rng, with_none=True))
+    for _ in range(250 if tier == 'quick' else 2500):
+        cases.append(gen_late_case(rng))
     for _ in range(n_rand):
         cases.append(gen_case(rng))
     for _ in range(n_file):
@@ -807,8 +919,10 @@ def _tuplify(c):
 
 def kind(case):
     prog, hist = case
-    if any(len(e) != 2 for e in hist):
+    if any(len(e) == 3 for e in hist):
         return 'order'
+    if any(len(e) == 1 for e in hist):
+        return 'late'
     if any(c[0] == TRANSFORM and c[2] == 6 for c in prog):
         return 'none'
     if any(c[0] == FILE for c in prog):
